@@ -420,7 +420,7 @@ def run_daemon_cases(chk, d, cases, r):
             cd = '%s/s%d' % (d, i)
             os.makedirs(cd)
             case = copy.deepcopy(c)
-            if 'cfg' in case and case['cfg'].get('endpoint'):
+            if 'cfg' in case and isinstance(case['cfg'].get('endpoint'), list):
                 for e in case['cfg']['endpoint']:
                     if isinstance(e, dict) and isinstance(e.get('url'), str):
                         e['url'] = ca.url('s%d' % i)
